@@ -128,6 +128,21 @@ def ubx(rng, maxlen=300, dense=False) -> bytes:
     return b"\xb5\x62" + msg + bytes([a, b])
 
 
+def ubx_big(rng) -> bytes:
+    """UBX frame with a payload of 4097..20000 bytes whose tail is dense in sync-like material."""
+    ln = rng.choice((4097, 4100, 5000, 8192, 20000, rng.randint(4097, 12000)))
+    body = bytearray(rng.getrandbits(8) for _ in range(ln))
+    tail = rng.choice((b"\xd3\x03\xff", b"$GNGGA,", b"\xb5\x62\x01\x02\xff\x0f", b"\xd3\x00\x40", b"$P"))
+    pos = ln - len(tail) - rng.randint(0, 12)
+    body[pos:pos + len(tail)] = tail
+    msg = bytes([rng.getrandbits(8), rng.getrandbits(8)]) + ln.to_bytes(2, "little") + bytes(body)
+    a = b = 0
+    for x in msg:
+        a = (a + x) & 0xFF
+        b = (b + a) & 0xFF
+    return b"\xb5\x62" + msg + bytes([a, b])
+
+
 def inert_noise(rng, maxlen=40) -> bytes:
     return bytes(rng.choice(INERT) for _ in range(rng.randint(1, maxlen)))
 
